@@ -7,6 +7,7 @@ WAVES = [
     ('Fifth wave', ('mutI', 'mutJ'), 'arithmetic that looks equivalent, counts, orientation arguments, return contracts, swallowed exceptions'),
     ('Sixth wave', ('mutK', 'mutL'), 'two cooperating edits, convenience shims, ignored parameters, early exits for trivial input, state kept between calls'),
     ('Seventh wave', ('mutM', 'mutN'), 'language, numpy and pandas subtleties: label against position, unstable orderings, late binding, consumed iterators, swallowed keywords, shallow copies'),
+    ('Eighth wave', ('mutO',), 'one change per property: the slip in symmetric code - one of two sibling sites gets the other sibling\'s name, index, comparison or offset'),
 ]
 m = json.load(open(os.path.join(ROOT, 'seeded', 'MATRIX.json')))
 have = set(m if isinstance(m, dict) else [r.get('id') for r in m])
